@@ -201,6 +201,7 @@ def _rest(res: Result, ctx):
         res.obligations.append(o)
     sub = Result("C03")
     C04.check_bioconsert_selection(sub, proj, "W4")
+    C04.check_decode_large(sub, proj, "W4")
     C10.check_scan(sub, proj, "W4")
     for o in sub.obligations:
         o.rule = "W4"
